@@ -433,6 +433,18 @@ KF_FLAGS = [("KF-C07-literal-range", "lit_range"), ("KF-C07-doubled-sign", "no_s
             ("KF-C07-incr-after-operand", "loose_incr"), ("KF-C07-cr-whitespace", "cr_ws")]
 
 
+def _open_first(flags):
+    """attribution prefers OPEN classes: a deviation that an open class explains is attributed to it;
+    one that only a repaired (`fixed:`) class explains keeps that id and is then a plain VIOLATION"""
+    st = {f["id"]: f.get("status", "open") for f in core.load_known("C07")}
+    return sorted(flags, key=lambda kf: (0 if st.get(kf[0], "open") == "open" else 1))
+
+
+KF_FLAGS = _open_first(KF_FLAGS)
+_ST = {f["id"]: f.get("status", "open") for f in core.load_known("C07")}
+OPEN_FLAGS = frozenset(f for k, f in KF_FLAGS if _ST.get(k, "open") == "open")   # repaired defects no longer excuse anything in combination
+
+
 def expected_fields(res, env_after, names, top_syntax):
     """the line the code should print if it behaved like the oracle"""
     k, v = res
@@ -482,7 +494,7 @@ def compare_spec(c, code_fields):
         if code_fields[:2] == h2 and (o2 is None or code_fields[2:] == o2):
             return why, kid
     # several known defects at once
-    fl = frozenset(f for _, f in KF_FLAGS)
+    fl = OPEN_FLAGS
     try:
         r2, e2 = oracle_eval(c, fl)
         ts2 = False
@@ -526,7 +538,7 @@ def parse_spec(s, exp, cf):
         w2 = oracle_parse_fields(s, frozenset([flag]))
         if w2 is not None and w2 != want and w2 == cf:
             return why, kid
-    w2 = oracle_parse_fields(s, frozenset(f for _, f in KF_FLAGS))
+    w2 = oracle_parse_fields(s, OPEN_FLAGS)
     if w2 == cf:
         for kid, flag in KF_FLAGS:
             if oracle_parse_fields(s, frozenset([flag])) != want:
